@@ -67,6 +67,7 @@ type progCase struct {
 	Src      string // overrides the rendering of P when set (layout variants)
 	Root     bool   // also compare the JSON output
 	MaxSteps int64  // model step budget (0: default)
+	Strict   bool   // the program was not built by a generator: the model declines what no statement fixes (refsem/strict.go)
 }
 
 func (pc *progCase) source() string {
@@ -101,6 +102,8 @@ func (pc *progCase) model() refsem.Result {
 	for _, e := range pc.Sels {
 		sels = append(sels, refsem.Selector{X: e})
 	}
+	refsem.StrictMode = pc.Strict
+	defer func() { refsem.StrictMode = false }()
 	return refsem.RunProgram(pc.P, mf, sels, probeKeyOrder, pc.MaxSteps)
 }
 
